@@ -266,7 +266,10 @@ class MayRaise:
             for h in s.handlers:
                 caught = {e for e in remaining if self.handler_matches(e, h, fi.module)}
                 remaining -= caught
-                hctx = dict(ctx, caught=frozenset(caught), handler_var=h.name)
+                hv = dict(ctx.get("handler_vars") or {})
+                if h.name:
+                    hv[h.name] = frozenset(caught)
+                hctx = dict(ctx, caught=frozenset(caught), handler_var=h.name, handler_vars=hv)
                 out |= self.block(h.body, hctx)
             out |= remaining
             out |= self.block(s.orelse, ctx)
@@ -280,6 +283,8 @@ class MayRaise:
             ex = s.exc
             if isinstance(ex, ast.Name) and ex.id == ctx.get("handler_var"):
                 return out | set(ctx["caught"])
+            if isinstance(ex, ast.Name) and ex.id in (ctx.get("handler_vars") or {}):
+                return out | set(ctx["handler_vars"][ex.id])
             cls_expr = ex.func if isinstance(ex, ast.Call) else ex
             if isinstance(ex, ast.Call):
                 for a in list(ex.args) + [k.value for k in ex.keywords]:
@@ -779,7 +784,7 @@ class MayRaise:
         elif prov.startswith("param:"):
             i = int(prov.split(":")[1])
             new = self._arg_prov(callee, caller, call, i)
-        elif prov.startswith("local:") or prov == "derived":
+        elif prov.startswith("local:") or prov.startswith("fresh:") or prov == "derived":
             new = "derived"
         return Esc(esc.exc, esc.func, esc.text, esc.line, esc.kind, new, esc.why)
 
@@ -852,6 +857,8 @@ class MayRaise:
         if isinstance(e, ast.Attribute) and isinstance(e.value, ast.Name) and e.value.id == "self":
             # self._view: the reader's own view
             return "self"
+        if isinstance(e, ast.Call) and len(e.args) == 1 and not e.keywords and self.m.resolve_name(caller.module, norm(e.func)) == "sansldap.asn1.ASN1Reader":
+            return "fresh:" + norm(e.args[0])      # a reader constructed on the spot over that value
         return "derived"
 
     # ------------------------------------------------------------------ builtins
@@ -968,8 +975,19 @@ class MayRaise:
                 return out
             if base == "int" and meth in ("from_bytes",):
                 return out
+            if base in ("bytes", "bytearray") and meth == "fromhex":
+                add("fromhex", "ValueError", False, "non-hex input raises ValueError")
+                return out
+            if base in ("str", "bytes", "bytearray", "strlike") and meth in ("index", "rindex"):
+                add("index", "ValueError", False, "substring may be absent")
+                return out
+            if base in ("str", "strlike") and meth in ("format", "format_map"):
+                add("format", "LookupError", False, "format field may be missing")
+                return out
             if base in PURE_METHODS and meth in PURE_METHODS[base]:
                 return out
+            if base in ("str", "bytes", "bytearray", "strlike", "memoryview", "byteslike") and not meth.startswith("_"):
+                return out      # the remaining str/bytes methods do not raise on str/bytes arguments
             if base == "exception":
                 return out
         self.unknown_calls.append(f"{fi.qualname}:{e.lineno} {norm(e)[:80]} [{name}]")
